@@ -153,12 +153,71 @@ def opEnum (args : List String) : Option String := do
   | _ => none
 end FrameOps
 
+/-! ### C20 configuration trees: leaf = `'text`, node = `(k=v;k=v)` -/
+section ConfigOps
+open Arim.Config
+
+partial def parseCfg (cs : List Char) : Option (Cfg × List Char) :=
+  match cs with
+  | '\'' :: rest =>
+    let txt := rest.takeWhile (fun c => c != ';' && c != ')')
+    some (Cfg.leaf (String.ofList txt), rest.dropWhile (fun c => c != ';' && c != ')'))
+  | '(' :: rest =>
+    let rec items (cs : List Char) (acc : List (String × Cfg)) : Option (List (String × Cfg) × List Char) :=
+      match cs with
+      | ')' :: r => some (acc.reverse, r)
+      | _ =>
+        let k := cs.takeWhile (· != '=')
+        match cs.dropWhile (· != '=') with
+        | '=' :: r =>
+          match parseCfg r with
+          | some (v, r') =>
+            match r' with
+            | ';' :: r'' => items r'' ((String.ofList k, v) :: acc)
+            | ')' :: r'' => some (((String.ofList k, v) :: acc).reverse, r'')
+            | _ => none
+          | none => none
+        | _ => none
+    (items rest []).map (fun (kv, r) => (Cfg.node kv, r))
+  | _ => none
+
+def cfg? (s : String) : Option Cfg :=
+  match parseCfg s.toList with
+  | some (c, []) => some c
+  | _ => none
+
+partial def showCfg : Cfg → String
+  | .leaf s => "'" ++ s
+  | .node kv => "(" ++ join (kv.map (fun (k, v) => k ++ "=" ++ showCfg v)) ";" ++ ")"
+
+def opMerge (args : List String) : Option String := do
+  match args with
+  | [a, b] => let a ← cfg? a; let b ← cfg? b; pure (showCfg (merge a b))
+  | _ => none
+
+/-- `loadconf <base> name cfg name cfg ...` (listing order) → documented result, listing-order result -/
+def opLoadConf (args : List String) : Option String := do
+  match args with
+  | base :: rest =>
+    let base ← cfg? base
+    let rec pairs (l : List String) (acc : List (String × Cfg)) : Option (List (String × Cfg)) :=
+      match l with
+      | [] => some acc.reverse
+      | n :: c :: r => do let c ← cfg? c; pairs r ((n, c) :: acc)
+      | _ => none
+    let listing ← pairs rest []
+    pure (showCfg (loadConf base listing) ++ " " ++ showCfg (loadConfListingOrder base listing))
+  | _ => none
+end ConfigOps
+
 def dispatch (op : String) (args : List String) : String :=
   let r : Option String :=
     match op with
     | "fermat" => opFermat args
     | "minplus" => opMinPlus args
     | "chunks" => opChunks args
+    | "merge" => opMerge args
+    | "loadconf" => opLoadConf args
     | "frame" => opFrame args
     | "enum" => opEnum args
     | "mtiles" => opMTiles args
